@@ -52,11 +52,16 @@ pub fn judge_c01(c: &Case, r: &ProgResult) -> Vec<Violation> {
                 if let Some(m) = o.outcome.strip_prefix("panic:") {
                     out.push(viol(format!("C01/panic/{ff}"), format!("cycle {} panicked: {}", k + 1, clip(m, 160)), c));
                 } else if let Some(f) = o.outcome.strip_prefix("fault:") {
-                    if f == "ExecutionTimeout" {
+                    if f == "ExecutionTimeout" && c.prog.budget_ms.is_some() {
+                        // a program that is meant not to terminate: the budget fault is the expected outcome
+                    } else if f == "ExecutionTimeout" {
                         out.push(viol(format!("C01/hang/{ff}"), format!("cycle {} did not terminate within 8 s", k + 1), c));
                     } else if !VALUE_FAULTS.contains(&f) {
                         out.push(viol(format!("C01/static:{f}/{ff}"), format!("accepted program failed in cycle {} with the static-class error {f}", k + 1), c));
                     }
+                }
+                if c.prog.budget_ms.is_some() && o.outcome == "ok" {
+                    out.push(viol(format!("C01/budget-ignored/{ff}"), format!("cycle {} of a program that cannot terminate was reported as completed", k + 1), c));
                 }
                 if o.frames != 0 && !o.outcome.starts_with("panic:") {
                     out.push(viol(format!("C01/frames/{ff}"), format!("{} call frame(s) left behind after cycle {} (outcome {})", o.frames, k + 1, o.outcome), c));
@@ -304,7 +309,17 @@ pub fn run_engine(ctx: &Ctx, prop: &str) -> EngineResult {
     {
         let mut top: Vec<(&(String, String), &u64)> = reject_reasons.iter().collect();
         top.sort_by(|a, b| b.1.cmp(a.1));
-        rep.set("rejection_reasons_top", json!(top.iter().take(12).map(|((f, e), n)| json!({"family": f, "reason": e, "count": n})).collect::<Vec<_>>()));
+        // the two most frequent reasons of every family
+        let mut per_fam: BTreeMap<&str, usize> = BTreeMap::new();
+        let top: Vec<_> = top
+            .into_iter()
+            .filter(|((f, _), _)| {
+                let k = per_fam.entry(f.as_str()).or_insert(0);
+                *k += 1;
+                *k <= 2
+            })
+            .collect();
+        rep.set("rejection_reasons_top", json!(top.iter().map(|((f, e), n)| json!({"family": f, "reason": e, "count": n})).collect::<Vec<_>>()));
         if let Some(((f, e), n)) = reject_reasons.iter().find(|((_, e), _)| e.starts_with("harness:")) {
             return machinery(format!("{n} programs of family {f} could not be driven by the harness: {e}"));
         }
